@@ -70,9 +70,14 @@ class _PushbackReader(io.RawIOBase):
             buffer[:size], self._head = self._head[:size], self._head[size:]
             return size
         # A source that is itself buffered (pipe or socket file object) would block in
-        # readinto() until the whole buffer is filled; readinto1() returns what has arrived.
-        readinto = getattr(self._rest, "readinto1", None) or self._rest.readinto  # type: ignore[attr-defined]
-        return readinto(buffer)  # type: ignore[no-any-return]
+        # readinto() until the whole buffer is filled, and in readinto1() whenever the
+        # room left exceeds its own buffer size; read1() returns what has arrived.
+        read1 = getattr(self._rest, "read1", None)
+        if read1 is None:
+            return self._rest.readinto(buffer)  # type: ignore[attr-defined, no-any-return]
+        data = read1(len(buffer))
+        buffer[: len(data)] = data
+        return len(data)
 
 
 MAX_READ_SIZE = 1 << 20
